@@ -246,6 +246,26 @@ def search(ctx, deep):
                 else:
                     continue
                 break
+    # batch size: a long batch (longer than any internal block; lengths just above powers of two) gives row i the value
+    # the same row gets in a short batch
+    for fam in B.FAMS:
+        th = B.theta_grid(fam)[len(B.theta_grid(fam)) // 2] if fam != 'gumbel' else 2.5
+        c = B.make(fam, th)
+        for n in (257, 4097, 5000, 8193):
+            X = np.random.RandomState(n).uniform(1e-3, 1 - 1e-3, size=(n, 2))
+            for m in ('probability_density', 'log_probability_density', 'partial_derivative'):
+                checked += 1
+                with np.errstate(all='ignore'):
+                    whole = np.asarray(getattr(c, m)(X.copy()), dtype=float)
+                    pieces = np.concatenate([np.asarray(getattr(c, m)(X[i:i + 61].copy()), dtype=float).ravel() for i in range(0, n, 61)])
+                if whole.shape != (n,) or not np.array_equal(whole, pieces, equal_nan=True):
+                    i = int(np.argmax(whole != pieces)) if whole.shape == pieces.shape else -1
+                    found += 1
+                    ctx.fail_input(f'{fam}.{m}', {'theta': th, 'n': n, 'generator': 'RandomState(n).uniform(1e-3, 1-1e-3, (n,2))', 'row': i,
+                                                 'row_values': X[i].tolist() if i >= 0 else None},
+                                   {'whole_batch': float(whole[i]) if i >= 0 else list(whole.shape), 'in_pieces_of_61': float(pieces[i]) if i >= 0 else list(pieces.shape)},
+                                   'the value of row i does not depend on the batch it is evaluated in', f'{fam}.{m}:batch-size-dependent')
+                    break
     # purity: a call leaves the caller's array as it was, returns memory of its own, and an earlier result does not
     # change when the same or another object of the family is called again on an equally shaped batch
     for fam in B.FAMS:
